@@ -378,3 +378,102 @@ pub fn run_json<S: Shape>(content_type: Option<&[u8]>, body: &[u8]) -> Outcome {
         }
     }
 }
+
+// ------------------------------------------------------------------------------------------------
+// NESTING dimension (JSON): recursive / self-describing targets and documents nested `depth` levels.
+// Runs in a CHILD process (a stack overflow aborts the process, it cannot be caught), on a thread
+// with the default 2 MiB stack of `std::thread::spawn` (what a server worker thread gets).
+// ------------------------------------------------------------------------------------------------
+#[derive(serde::Deserialize, Debug)]
+pub struct NestRec {
+    #[serde(default)]
+    pub replies: Vec<NestRec>,
+    #[serde(default)]
+    pub n: u32,
+}
+
+pub const NEST_SHAPES: [&str; 3] = ["rec_obj", "value_arr", "value_obj"];
+
+pub fn nest_document(shape: &str, depth: usize) -> Vec<u8> {
+    let (open, close, leaf): (&str, &str, &str) = match shape {
+        "rec_obj" => ("{\"n\":1,\"replies\":[", "]}", "{\"n\":7}"),
+        "value_arr" => ("[", "]", "7"),
+        "value_obj" => ("{\"k\":", "}", "7"),
+        _ => verif_common::machinery_error("unknown nesting shape"),
+    };
+    let mut s = String::with_capacity((open.len() + close.len()) * depth + leaf.len());
+    for _ in 0..depth {
+        s.push_str(open);
+    }
+    s.push_str(leaf);
+    for _ in 0..depth {
+        s.push_str(close);
+    }
+    s.into_bytes()
+}
+
+/// Child side: extract, measure the nesting of what came back WITHOUT recursion, leak the value
+/// (dropping a deep tree recurses too, and that would be the application's business, not the extractor's).
+pub fn nest_child(shape: &str, depth: usize) -> String {
+    let body = nest_document(shape, depth);
+    let request_head = head(Uri::from_static("/json"), Some(b"application/json"));
+    let buffered_body = buffered(&body);
+    let shape = shape.to_string();
+    let h = std::thread::spawn(move || {
+        let r = catch_unwind(AssertUnwindSafe(|| -> Result<usize, String> {
+            if shape == "rec_obj" {
+                match JsonBody::<NestRec>::extract(&request_head, &buffered_body) {
+                    Ok(v) => {
+                        let mut cur: &NestRec = &v.0;
+                        let mut d = 0usize;
+                        let mut ok = true;
+                        while let Some(next) = cur.replies.first() {
+                            ok &= cur.n == 1 && cur.replies.len() == 1;
+                            cur = next;
+                            d += 1;
+                        }
+                        ok &= cur.n == 7;
+                        let out = if ok { Ok(d) } else { Err("WRONG-VALUE".to_string()) };
+                        std::mem::forget(v);
+                        out
+                    }
+                    Err(e) => Err(json_variant(&e)),
+                }
+            } else {
+                match JsonBody::<serde_json::Value>::extract(&request_head, &buffered_body) {
+                    Ok(v) => {
+                        let mut cur: &serde_json::Value = &v.0;
+                        let mut d = 0usize;
+                        loop {
+                            match cur {
+                                serde_json::Value::Array(a) if a.len() == 1 => cur = &a[0],
+                                serde_json::Value::Object(o) if o.len() == 1 && o.contains_key("k") => cur = &o["k"],
+                                _ => break,
+                            }
+                            d += 1;
+                        }
+                        let out = if cur == &serde_json::json!(7) { Ok(d) } else { Err("WRONG-VALUE".to_string()) };
+                        std::mem::forget(v);
+                        out
+                    }
+                    Err(e) => Err(json_variant(&e)),
+                }
+            }
+        }));
+        match r {
+            Err(p) => format!("NEST panic {}", panic_msg(p)),
+            Ok(Ok(d)) => format!("NEST ok {d}"),
+            Ok(Err(v)) => format!("NEST err {v}"),
+        }
+    });
+    h.join().unwrap_or_else(|_| "NEST panic (thread)".to_string())
+}
+
+fn json_variant(e: &ExtractJsonBodyError) -> String {
+    match e {
+        ExtractJsonBodyError::MissingContentType(_) => "MissingContentType".into(),
+        ExtractJsonBodyError::ContentTypeMismatch(_) => "ContentTypeMismatch".into(),
+        ExtractJsonBodyError::DeserializationError(_) => "DeserializationError".into(),
+        _ => "<unknown ExtractJsonBodyError variant>".into(),
+    }
+}
